@@ -6,6 +6,7 @@ import RcVerif.Model.Route
 import RcVerif.Model.Cluster
 import RcVerif.Model.AuthIp
 import RcVerif.Model.Elastic
+import RcVerif.Model.ConnIO
 /-
   Line-protocol driver: one request per input line, one canonical answer per
   output line. Core-only, compiled as `rcdriver`.
@@ -363,6 +364,41 @@ def elasticLine (rest : String) : String :=
       String.intercalate " | " outs
   | _ => "bad-op"
 
+/-! ### connio: `connio <maxStatic> | v l1,l2 a=K ; w l a=K ; f a=K ; end` (K = bytes the kernel accepted) -/
+def parseAcc (tok : String) : Option Nat :=
+  if tok.startsWith "a=" then (tok.drop 2).toString.toNat? else none
+
+def connioLine (rest : String) : String :=
+  match rest.splitOn "|" with
+  | [hd, ops] =>
+    match hd.trimAscii.toString.toNat? with
+    | none => "bad-op"
+    | some maxStatic =>
+      let init : Elastic.Pool × ConnIO.Conn × Nat × List String := ({}, { out := { maxStatic := maxStatic } }, 0, [])
+      let (_, _, _, outs) := (splitOps ops).foldl (fun (acc : Elastic.Pool × ConnIO.Conn × Nat × List String) op =>
+        let (pool, c, k, outs) := acc
+        let fin (pool' : Elastic.Pool) (c' : ConnIO.Conn) (k' : Nat) :=
+          (pool', c', k', outs ++ [s!"[{c'.out.buffered} {c'.wire.length}]"])
+        match op with
+        | ["v", lens, a] => match parseLens lens, parseAcc a with
+          | some lens, some a =>
+            let (bs, k') := streamSlices k lens
+            let (pool', c') := ConnIO.writev pool c bs a
+            fin pool' c' k'
+          | _, _ => (pool, c, k, outs ++ ["bad-op"])
+        | ["w", l, a] => match l.toNat?, parseAcc a with
+          | some l, some a =>
+            let (pool', c') := ConnIO.write pool c (streamBytes k l) a
+            fin pool' c' (k + l)
+          | _, _ => (pool, c, k, outs ++ ["bad-op"])
+        | ["f", a] => match parseAcc a with
+          | some a => let (pool', c') := ConnIO.flush pool c a; fin pool' c' k
+          | none => (pool, c, k, outs ++ ["bad-op"])
+        | ["end"] => (pool, c, k, outs ++ [s!"stream {digest c.wire}"])
+        | _ => (pool, c, k, outs ++ ["bad-op"])) init
+      String.intercalate " | " outs
+  | _ => "bad-op"
+
 def stepLine (line : String) : String :=
   let line := line.trimAscii.toString
   if line.startsWith "sim " then simLine (line.drop 4).toString else
@@ -372,6 +408,7 @@ def stepLine (line : String) : String :=
   if line.startsWith "ring " then ringLine (line.drop 5).toString else
   if line.startsWith "llist " then llistLine (line.drop 6).toString else
   if line.startsWith "elastic " then elasticLine (line.drop 8).toString else
+  if line.startsWith "connio " then connioLine (line.drop 7).toString else
   match (line.trimAscii.toString.splitOn " ").filter (· ≠ "") with
   | ["hash", k] =>
     match fromHex k with
